@@ -1,0 +1,50 @@
+//go:build verif
+
+package redis
+
+import "strconv"
+
+// Constructor round-trip lemmas for the deductive verification in /verif. These functions are never called: each one builds a
+// message with a public constructor and reads it back with the public accessor; its contract (contracts_verif.go) states that the Go
+// value comes back unchanged. The verifier checks the body against the contracts of the constructor and of the accessor only.
+
+func verifCtorInteger(v int) (int, error) {
+	return NewIntegerMessage(v).Integer()
+}
+
+func verifCtorString(s string) (string, error) {
+	return NewStringMessage(s).String()
+}
+
+func verifCtorBulk(s string) (string, error) {
+	return NewBulkMessage(s).String()
+}
+
+func verifCtorOK() (string, error) {
+	return NewOKMessage().String()
+}
+
+func verifCtorNil() bool {
+	return NewNilMessage().IsNil()
+}
+
+func verifCtorFloat(v float64) (float64, error) {
+	s, err := NewFloatMessage(v).String()
+	if err != nil {
+		return 0, err
+	}
+	return strconv.ParseFloat(s, 64)
+}
+
+func verifCtorStrings(strs []string, k int) (string, error) {
+	a, err := NewStringArrayMessage(strs).Array()
+	if err != nil {
+		return "", err
+	}
+	for i := 0; i < k; i++ {
+		if _, err := a.Next(); err != nil {
+			return "", err
+		}
+	}
+	return a.NextString()
+}
